@@ -296,7 +296,13 @@ pub fn expand_lin(lin: &Lin, late: &std::collections::HashSet<u32>) -> Result<(V
 /// combined check vanishes for every value of the late randomness".  Expected `unsat`; a `sat`
 /// model is a candidate accepted violation and is replayed natively.
 pub fn rejection_query_group(name: &str, only_if_failed: &str, residual: &Lin, nonzero: &[u32], claim: &str) -> Result<Group, String> {
-    let late = challenge_vars();
+    // the late randomness: every challenge AND every nonce the prover drew from the transcript-bound RNG -- the party
+    // choosing the error values / deviations controls neither, so a counter-model may not depend on particular nonces
+    let mut late = challenge_vars();
+    late.extend(arena::with(|a| a.rng_draws.iter().map(|d| d.0).collect::<Vec<u32>>()));
+    for nz in nonzero {
+        late.remove(nz);
+    }
     let (coefs, deg) = expand_lin(residual, &late)?;
     arena::with(|a| {
         let mut roots: Vec<u32> = coefs.iter().map(|c| c.3).collect();
